@@ -20,6 +20,7 @@ func checkC03(p *Prog, r *Report) {
 		return false
 	})
 	checkLookupBody(p, r, "C03")
+	checkInitGenesisCallers(p, r, "C03", "x/did")
 	wireKeyOwnership(p, r, BuildWire(p), "C03", "did", []string{"x/did/keeper.NewKeeper"}, "DID documents")
 }
 
@@ -36,6 +37,7 @@ func checkC04(p *Prog, r *Report) {
 		return false
 	})
 	didQueryRules(p, r, m, "C04", false, true, false)
+	checkInitGenesisCallers(p, r, "C04", "x/did")
 	wireKeyOwnership(p, r, BuildWire(p), "C04", "did", []string{"x/did/keeper.NewKeeper"}, "DID documents and sequences")
 }
 
@@ -53,6 +55,7 @@ func checkC05(p *Prog, r *Report) {
 	})
 	didQueryRules(p, r, m, "C05", true, false, true)
 	didGenesisRules(p, r, m, "C05")
+	checkInitGenesisCallers(p, r, "C05", "x/did")
 	wireKeyOwnership(p, r, BuildWire(p), "C05", "did", []string{"x/did/keeper.NewKeeper"}, "DID documents and tombstones")
 }
 
@@ -70,6 +73,7 @@ func checkC11(p *Prog, r *Report) {
 		return false
 	})
 	didQueryRules(p, r, m, "C11", false, false, true)
+	checkInitGenesisCallers(p, r, "C11", "x/did")
 	wireKeyOwnership(p, r, BuildWire(p), "C11", "did", []string{"x/did/keeper.NewKeeper"}, "DID documents")
 	r.Note("C11-D3: GenesisState.Validate checks key and document validity separately and does not compare the key with Document.Id (genesis files are trusted input; not a violation of the property as stated)")
 }
